@@ -205,20 +205,23 @@ def retOf : GRes (GEnv × Sig) → GRes GVal
   | .ok (_, _) w => .ok .void w
 
 theorem call_func {F w name args fn r0} (hf : F.findFunc name = some fn)
-    (hb : BlockS F ((fn.params.zip args).map fun ((x, _), v) => (x, v)) w fn.body r0) :
+    (hb : BlockS F ((fn.params.zip args).map fun ((x, _), v) => (x, v)) w fn.body r0)
+    (hlen : fn.params.length = args.length := by first | rfl | decide | simp) :
     CallS F w (.func name) args (retOf r0) := by
   obtain ⟨m, hm⟩ := hb
   refine ⟨m + 1, fun k hk => ?_⟩
   obtain ⟨k, rfl, hk'⟩ := succ_of_le hk
-  rw [callG.eq_def]; simp only [hf, hm k hk']
+  have har : (fn.params.length != args.length) = false := by simp [hlen]
+  rw [callG.eq_def]; simp only [hf, har, Bool.false_eq_true, if_false, hm k hk']
   cases r0 with
   | fail f w => rfl
   | ok p w => obtain ⟨ρ', sig⟩ := p; cases sig <;> rfl
 
 theorem call_func_env {F w name args fn ρ r0 r} (hf : F.findFunc name = some fn)
     (hρ : (fn.params.zip args).map (fun ((x, _), v) => (x, v)) = ρ)
-    (hb : BlockS F ρ w fn.body r0) (hr : retOf r0 = r) : CallS F w (.func name) args r := by
-  subst hρ; subst hr; exact call_func hf hb
+    (hb : BlockS F ρ w fn.body r0) (hr : retOf r0 = r)
+    (hlen : fn.params.length = args.length := by first | rfl | decide | simp) : CallS F w (.func name) args r := by
+  subst hρ; subst hr; exact call_func hf hb hlen
 
 /-! ### blocks and statements -/
 
